@@ -231,7 +231,10 @@ def check_reply(ctx, rng):
                 continue
             name = [C(b'r'), rc.comp(8, str(seq).encode())]
             t_arr = S.now_ms()
-            await face.deliver(bytes(make_interest(name, InterestParam(lifetime=L, nonce=seq))))
+            iw = bytes(make_interest(name, InterestParam(lifetime=L, nonce=seq)))
+            # every third Interest arrives inside a link-layer envelope with a PIT token: the deadline applies all the same
+            token = [None, None, b'\x01\x02\x03\x04'][seq % 3]
+            await face.deliver(iw if token is None else rc.make_lp(fragment=iw, pit_token=token))
             for _ in range(3):
                 await asyncio.sleep(0)
             if not log or [bytes(c) for c in log[-1][0]] != name:
@@ -251,6 +254,16 @@ def check_reply(ctx, rng):
             should = (S.now_ms() <= t_arr + eff)
             ctx.event('reply-sent' if should else 'reply-late')
             ctx.case(('reply', L, off), nontrivial=True)
+            if token is not None:
+                # compare the payload of the envelope (the envelope itself is C10's business)
+                unwrapped = []
+                for t_, b_ in sent:
+                    try:
+                        unwrapped.append((t_, rc.strict_lp(b_)['fragment']))
+                    except (rc.Reject, KeyError):
+                        unwrapped.append((t_, b_))
+                sent = unwrapped
+                w['pit_token'] = token
             if should and [b for t, b in sent] != [data]:
                 res['viol'].append(('reply-not-transmitted-before-deadline', f'reply within the lifetime was not transmitted exactly once and unmodified (sent {len(sent)} packets)', w))
             if not should and sent:
